@@ -44,28 +44,34 @@ def comb : STree → List Rat → STree
   | t, [] => t
   | t, x :: xs => comb (STree.node t (STree.leaf x)) xs
 
+/-- `k` consecutive blocks of 8 terms -/
+def chunks8 : Nat → List Rat → List (List Rat)
+  | 0, _ => []
+  | k + 1, xs => xs.take 8 :: chunks8 k (xs.drop 8)
+
+/-- `r[0..7] += a[i..i+7]` for every further block: eight interleaved accumulators -/
+def accumulate (blocks : List (List Rat)) : List Rat :=
+  (blocks.drop 1).foldl (fun acc blk => List.zipWith fadd acc blk) (blocks.headD [])
+
+/-- `((r0+r1)+(r2+r3)) + ((r4+r5)+(r6+r7))` -/
+def combine8 (r : List Rat) : Rat :=
+  let g := fun j => r.getD j 0
+  fadd (fadd (fadd (g 0) (g 1)) (fadd (g 2) (g 3))) (fadd (fadd (g 4) (g 5)) (fadd (g 6) (g 7)))
+
 /-- `numpy.sum` of a contiguous float64 array (numpy/_core/src/umath/loops_utils.h.src `pairwise_sum`): fewer than 8 terms
-    sequentially; up to 128 terms eight interleaved accumulators, combined as ((r0+r1)+(r2+r3))+((r4+r5)+(r6+r7)), the
+    sequentially from 0; up to 128 terms eight interleaved accumulators, combined as ((r0+r1)+(r2+r3))+((r4+r5)+(r6+r7)), the
     remaining `n % 8` terms added one by one; above 128 terms split at `n/2` rounded down to a multiple of 8.
     `fuel` bounds the recursion depth (halving: 64 levels are enough for any array). -/
 def pairwiseSum : Nat → List Rat → Rat
   | 0, xs => xs.foldl fadd 0
   | fuel + 1, xs =>
     let n := xs.length
-    if n < 8 then
-      -- `res = 0.; for i: res += a[i]` — numpy starts from -0.0? (it starts from `0.` for n < 8)
-      xs.foldl fadd 0
+    if n < 8 then xs.foldl fadd 0
     else if n ≤ 128 then
       let nb := n - n % 8
-      let blocks := (List.range (nb / 8)).map (fun b => (List.range 8).map (fun j => xs.getD (8 * b + j) 0))
-      let r0 := blocks.headD []
-      let r := (blocks.drop 1).foldl (fun acc blk => List.zipWith fadd acc blk) r0
-      let g := fun j => r.getD j 0
-      let res := fadd (fadd (fadd (g 0) (g 1)) (fadd (g 2) (g 3))) (fadd (fadd (g 4) (g 5)) (fadd (g 6) (g 7)))
-      (xs.drop nb).foldl fadd res
+      (xs.drop nb).foldl fadd (combine8 (accumulate (chunks8 (nb / 8) xs)))
     else
-      let n2 := n / 2
-      let n2 := n2 - n2 % 8
+      let n2 := n / 2 - (n / 2) % 8
       fadd (pairwiseSum fuel (xs.take n2)) (pairwiseSum fuel (xs.drop n2))
 
 end FloatSum
